@@ -380,7 +380,8 @@ pub fn sign_and_spell(l: &Logical, rng: &mut Rng, sp: &Spelling, now: (i64, u32)
     let folds = l.fold && l.form.is_some();
     let mut headers: Vec<(String, Vec<u8>)> = l.headers.clone();
     if let Some(ct) = &l.content_type {
-        headers.push(("Content-Type".to_string(), ct.as_bytes().to_vec()));
+        // characters up to U+00FF stand for the byte of the same number (so that a lone 0xA0 or 0x85 can be written)
+        headers.push(("Content-Type".to_string(), if ct.chars().all(|c| (c as u32) < 256) { latin1_bytes(ct) } else { ct.as_bytes().to_vec() }));
     }
     let mut signed: Vec<String> = l.signed.clone();
     let mut auth_pairs: Vec<(Vec<u8>, Vec<u8>)> = Vec::new();
